@@ -272,6 +272,48 @@ def run(ctx):
                 violations.append({"signature": "state:allow_unknown-setter", "what": "allow_unknown changed after a rejected assignment", "replay": rp})
         if i == 2:
             samples.append({"good": common.jval(schema), "bad": common.jval(bad) if 'bad' in dir() else None})
+    # (3) well-formed schemas whose rules sets / sub-schemas are given by NAME must be accepted (validator-bound and
+    #     module-level registries; the definitions include the empty rules set and the empty schema)
+    import refs
+    for i in range(n // 2):
+        schema = g.schema()
+        pos = refs.referenceable(schema)
+        extra = rng.random() < 0.4
+        if not pos and not extra:
+            continue
+        s2, rdefs, sdefs = refs.substitute(schema, rng.sample(pos, rng.randrange(1, min(3, len(pos)) + 1))) if pos else (copy.deepcopy(schema), {}, {})
+        if extra:
+            shape = rng.choice(['valuesrules', 'keysrules', 'items', 'list-schema', 'dict-schema', 'allow_unknown', 'field'])
+            rdefs = dict(rdefs, EMPTY_RULES={})
+            sdefs = dict(sdefs, EMPTY_SCHEMA={})
+            s2['zz'] = {'valuesrules': {'type': 'dict', 'valuesrules': 'EMPTY_RULES'}, 'keysrules': {'type': 'dict', 'keysrules': 'EMPTY_RULES'},
+                        'items': {'type': 'list', 'items': ['EMPTY_RULES', {'type': 'integer'}]}, 'list-schema': {'type': 'list', 'schema': 'EMPTY_RULES'},
+                        'dict-schema': {'type': 'dict', 'schema': 'EMPTY_SCHEMA'}, 'allow_unknown': {'type': 'dict', 'allow_unknown': 'EMPTY_RULES'},
+                        'field': 'EMPTY_RULES'}[shape]
+            dist["reference_to_empty_definition@" + shape] += 1
+        rr, sr = refs.make_registries(rdefs, sdefs)
+        module_level = rng.random() < 0.3
+        saved = None
+        cfg = g.config()
+        if module_level:
+            saved = (dict(cerberus.rules_set_registry.all()), dict(cerberus.schema_registry.all()))
+            cerberus.rules_set_registry.extend(rr.all()); cerberus.schema_registry.extend(sr.all())
+        else:
+            cfg = dict(cfg, rules_set_registry=rr, schema_registry=sr)
+        cases += 1
+        dist["grammar_with_references"] += 1
+        try:
+            inline_ok = real_accepts(schema, {k: v for k, v in cfg.items() if not k.endswith('_registry')}) == "accepted"
+            out = real_accepts(s2, cfg)
+            if inline_ok and out != "accepted":
+                violations.append({"signature": "grammar-rejected:by-reference" if out == "rejected" else "grammar-%s:by-reference" % out,
+                                   "what": "well-formed schema with definitions given by name: %s (the inline form is accepted)" % out,
+                                   "replay": {"schema": common.jval(s2), "rules_set_registry": common.jval(rdefs), "schema_registry": common.jval(sdefs),
+                                              "config": common.jval({k: v for k, v in cfg.items() if not k.endswith('_registry')}), "module_level": module_level}})
+        finally:
+            if saved is not None:
+                cerberus.rules_set_registry.clear(); cerberus.schema_registry.clear()
+                cerberus.rules_set_registry.extend(saved[0]); cerberus.schema_registry.extend(saved[1])
     # the documented grammar (Model/Accept.v after Model/Expand.v) against the real acceptance on a cold cache
     modelled = 0
     if ctx["driver_ok"] and model_lines:
